@@ -17,6 +17,9 @@ func main() {
 	if os.Args[1] == "replay" {
 		os.Exit(props.ReplayFile(os.Args[2]))
 	}
+	if os.Args[1] == "worker" {
+		os.Exit(props.RunWorker(os.Args[2:]))
+	}
 	id, tier := os.Args[1], os.Args[2]
 	if tier != "quick" && tier != "thorough" {
 		fmt.Println("tier must be quick or thorough")
